@@ -80,6 +80,7 @@ THEOREMS = {
         "char_result_allocatable", "char_result_allocatable_null", "string_result_allocatable_partial",
         "string_val_result_allocatable_partial", "vector_string_in", "vector_string_out_c_wrapper",
         "vector_string_out_fortran_undefined",
+        "ifaceBlockGuard_all", "generic_member_own_condition", "assumed_rank_variants",
     ]]
 }
 
@@ -269,6 +270,21 @@ def gen_description(r, idx):
         else:
             decls.append({"decl": "void ibool(double v, bool up +implied(true), bool down +implied(false))", "fortran_generic": [dict(g) for g in GEN_FD]})
         feats.append("implied-" + form + ("*generic" if form != "arith" else ""))
+    if cxx and r.random() < 0.5:
+        # preprocessor guards on members of one generic: first / middle / last / all / none guarded, two different macros
+        pat = r.choice([[1, 0, 0], [0, 1, 0], [0, 0, 1], [1, 1, 1], [1, 2, 0], [1, 1], [1, 0], [2, 1, 1]])
+        sigs = ["int i", "double d", "int i, int j", "const std::string &s"]
+        for k, g in enumerate(pat):
+            dd = {"decl": "void pick(%s)" % sigs[k]}
+            if g:
+                dd["cpp_if"] = "ifdef HAVE_PICK%d" % g
+            decls.append(dd)
+        feats.append("cpp_if-on-generic-members:" + "".join(map(str, pat)))
+    if r.random() < 0.35:
+        lo, hi = r.choice([(0, 2), (0, 3), (1, 2), (1, 1), (0, 1), (2, 3)])
+        decls.append({"decl": "int arsum(const int *values +dimension(..), int nvalues)",
+                      "options": {"F_assumed_rank_min": lo, "F_assumed_rank_max": hi}})
+        feats.append("assumed-rank-range")
     opts = {"wrap_python": False, "wrap_lua": False}
     if want_cfi:
         opts["F_CFI"] = True
@@ -444,6 +460,10 @@ def run(ctx):
         nrun += c01_oracle.check_library(ctx, work, "cfih", "qlib", [
             c01_oracle.Func("h0", "void", [c01_oracle.CstrIn("s0")]),
             c01_oracle.Func("h1", "void", [c01_oracle.StringInout("s1")])], True, [(1, 0)], workers=2)
+        # generic interfaces with preprocessor guards on some members: built with the macro undefined and defined
+        for macros in ((), ("HAVE_PK",)):
+            nrun += c01_oracle.check_library(ctx, work, "cppif" + "".join(macros), "qlib", c01_oracle.cppif_spec(), True,
+                                             [(0, 0)], workers=1, macros=macros)
         # the open part of the F_CFI finding, reproduced on every run: a context RESULT with a character argument
         nrun += c01_oracle.check_library(ctx, work, "cfires", "qlib", [
             c01_oracle.Func("r99", "iptr", [c01_oracle.DimArg("d99"), c01_oracle.StringIn("s99")])], True, [(1, 0)], workers=1, force=True)
